@@ -1,6 +1,7 @@
 package main
 
 import (
+	"bytes"
 	gohmac "crypto/hmac"
 	"crypto/sha256"
 	"crypto/sha512"
@@ -221,13 +222,37 @@ func streamMac(c *ctx) {
 			c.nontriv(fmt.Sprintf("history|%d|%d|%d", alg, step, l%16))
 		}
 	}
-	// wrong key sizes are refused by every factory
+	// wrong key sizes are refused by every factory: New, CheckKey, KeyFrom of the package, and the registry
+	sizes := []int{128, 129, 200}
+	for l := 0; l <= 65; l++ {
+		sizes = append(sizes, l)
+	}
 	for _, alg := range algs {
-		for l := 0; l <= 65; l++ {
-			_, err := macer(alg, make([]byte, l))
+		for _, l := range sizes {
+			kb := c.r.bytes(l)
+			kk := key.Key{iana.KeyParameterKty: iana.KeyTypeSymmetric, iana.KeyParameterAlg: alg, iana.SymmetricKeyParameterK: kb}
+			_, e1 := macer(alg, kb)
+			_, e4 := kk.MACer()
+			var e2, e3 error
+			var kf key.Key
+			if alg >= 4 && alg <= 7 {
+				e2 = hmac.CheckKey(kk)
+				kf, e3 = hmac.KeyFrom(alg, append([]byte{}, kb...))
+			} else {
+				e2 = aesmac.CheckKey(kk)
+				kf, e3 = aesmac.KeyFrom(alg, append([]byte{}, kb...))
+			}
 			c.eval()
-			if (err == nil) != (l == symKeySize[alg]) {
-				c.fail(failure{Op: "mac", What: "key size check", Input: fmt.Sprintf("alg=%d keylen=%d", alg, l), Observed: fmt.Sprintf("accepted=%v", err == nil), Expected: fmt.Sprintf("accepted=%v", l == symKeySize[alg]), Theorem: "C11_wrong_key_size_refused"})
+			want := l == symKeySize[alg]
+			for fi, e := range []error{e1, e2, e3, e4} {
+				if (e == nil) != want {
+					c.fail(failure{Op: "mac", What: "key size check (" + []string{"New", "CheckKey", "KeyFrom", "Key.MACer"}[fi] + ")", Input: fmt.Sprintf("alg=%d keylen=%d", alg, l), Observed: fmt.Sprintf("accepted=%v", e == nil), Expected: fmt.Sprintf("accepted=%v", want), Theorem: "C11_wrong_key_size_refused"})
+				}
+			}
+			if e3 == nil {
+				if got, _ := kf.GetBytes(iana.SymmetricKeyParameterK); !bytes.Equal(got, kb) {
+					c.fail(failure{Op: "mac", What: "KeyFrom returned a key with other key material than it was given", Input: fmt.Sprintf("alg=%d key=%x", alg, kb), Observed: fmt.Sprintf("%x", got), Expected: fmt.Sprintf("%x", kb), Theorem: "C11_wrong_key_size_refused"})
+				}
 			}
 		}
 	}
